@@ -396,7 +396,7 @@ def gen_case(rng):
 
 
 def plan(tier, seed, n):
-    per = 120 if tier == 'quick' else 6000
+    per = 400 if tier == 'quick' else 20000
     return [{'n': per} for _ in range(n)]
 
 
